@@ -253,6 +253,27 @@ def rule_fixing(ctx):
               "fixed sites are not restored from np.where(fixed)", f.where())
 
 
+def rule_single_allele(ctx):
+    """a fixed SNV reappears with *the* allele it is homozygous for: the (column, allele) pairs that fill the template come from
+    np.where(mask), so the mask may hold at most one allele per SNV.  The bare threshold test marks every allele whose homozygote
+    reaches the threshold - several at thresholds <= 0.5, and the zero padding of SNVs with fewer alleles at threshold 0 - and the
+    last pair written wins (defect T).  The mask has to be restricted to the most probable homozygote of each SNV."""
+    fq = 'mchap.assemble.mcmc.DenovoMCMC._mcmc'
+    f = ctx.func(fq)
+    r = ctx.recon(fq)
+    wh = [c for c, _, _ in r.calls if c[1] == 'numpy.where' and len(c[2]) == 1]
+    ctx.need(wh, f"{fq}: np.where(fixed) not found")
+    for k, c in enumerate(wh):
+        m = c[2][0]
+        has_thr = any(x[0] == 'cmp' and x[1] in ('GtE', 'LtE') and ('attr', ('param', 'self'), 'fix_homozygous') in (x[2], x[3]) for x in walk(m))
+        has_max = any(x[0] == 'call' and x[1] in ('numpy.argmax', '.argmax', 'numpy.max', '.max', 'numpy.amax', 'numpy.nanargmax') for x in walk(m))
+        ctx.check(has_thr and has_max, 'R15.6/single-fixed-allele', f.construct(f'np.where(fixed)#{k + 1}'),
+                  "the mask of fixed (SNV, allele) pairs is the threshold test restricted to the most probable homozygote of each SNV",
+                  "every allele whose homozygote reaches the threshold is marked, not only the most probable one: with thresholds <= 0.5 "
+                  "(ties) or 0 (zero padding of SNVs with fewer alleles) a fixed SNV is restored with the last marked allele, which can "
+                  "be an allele the SNV does not have" if has_thr else "the mask of fixed alleles no longer derives from the threshold test", f.where())
+
+
 def rule_breaks(ctx):
     fq = 'mchap.assemble.structural.random_breaks'
     f = ctx.func(fq)
@@ -310,4 +331,5 @@ def run(ctx):
     rule_sweep(ctx)
     rule_dtype_width(ctx)
     rule_fixing(ctx)
+    rule_single_allele(ctx)
     rule_breaks(ctx)
